@@ -1042,7 +1042,7 @@ func init() {
 				addMarshal(ugo.String([]byte{byte(b)}))
 				addMarshal(&ujson.EncoderOptions{Value: ugo.String([]byte{'a', byte(b), 'b'}), EscapeHTML: false})
 			}
-			for _, n := range []int{0, 1, 2, 3, 4, 47, 48, 49, 766, 767, 768, 769, 770, 1000} {
+			for _, n := range []int{0, 1, 2, 3, 4, 40, 45, 46, 47, 48, 49, 50, 51, 60, 63, 64, 65, 66, 70, 766, 767, 768, 769, 770, 1000} {
 				addMarshal(ugo.Bytes(bytes.Repeat([]byte{0xfb, 0xef, 0xbe}, n)[:n]))
 			}
 			addMarshal(nil)
@@ -1088,6 +1088,18 @@ func init() {
 				addDoc([]byte{'"', '\\', byte(b), '"'}, "escbyte")
 				addDoc([]byte{'1', byte(b), '1'}, "numbyte")
 				addDoc([]byte{'[', byte(b), ']'}, "arrbyte")
+				// runs of the byte inside a string and inside an object key: every invalid byte grows to a
+				// 3-byte replacement character while the string is unquoted
+				for _, n := range []int{2, 5, 6, 9, 40} {
+					run := bytes.Repeat([]byte{byte(b)}, n)
+					if b == '"' || b == '\\' || b < 0x20 {
+						continue
+					}
+					addDoc(append(append([]byte{'"'}, run...), '"'), "strrun")
+					if n <= 6 {
+						addDoc(append(append([]byte("{\""), run...), []byte("\":1}")...), "keyrun")
+					}
+				}
 			}
 			for i := 0; i < 700*c.Scale; i++ {
 				addDoc([]byte(randDoc(r, 4)), "valid")
